@@ -5,6 +5,7 @@ UTF-8 decoder (`decodeRune`, `decodeB`, `lastRuneSize`, `encodeRune`), the searc
 import RegexVerif.Model.StringFilter
 import RegexVerif.Lemmas.Utf8
 import RegexVerif.Lemmas.Finders
+import RegexVerif.Lemmas.Api
 
 namespace RegexVerif.Lemmas.StringFilter
 open RegexVerif RegexVerif.Utf8 RegexVerif.StringFilter RegexVerif.Scan
@@ -2247,5 +2248,365 @@ theorem literalAfterLoopFilter_sound (l : LitB) (minLen : Nat) (input : List Nat
               | none => rfl
               | some _ => rw [hi] at hhas; simp at hhas
             exact (indexRune_spec input l.char _ ⟨ks, hks, rfl⟩).2 hnone k hlit (byteOff_mono input ks k (by omega))
+
+/-! ## `newStringPrefixFilter`: whatever is installed is sound -/
+
+/-- `charInFixedDistanceSet` on the fields the filter reads (no `CharSet`) -/
+def setMemB (s : SetB) (ch : Nat) : Bool :=
+  if !s.chars.isEmpty then (if s.negated then !s.chars.contains ch else s.chars.contains ch)
+  else match s.range with
+    | some (lo, hi) => if s.negated then !(decide (lo ≤ ch) && decide (ch ≤ hi)) else decide (lo ≤ ch) && decide (ch ≤ hi)
+    | none => false
+
+/-- the facts `newStringPrefixFilter`'s choice consumes, per find mode, about the attempts of the program on the
+    DECODED input (`runesOf input`); positions and distances in RUNES.  These are the fact predicates of the
+    candidate finders (C03 `OptFacts`, delivered by C04) with the literal taken as the runes of the published
+    string; for the two ignore-case modes the comparison is ASCII folding, which is what the byte search
+    performs (`findLeadingStringsLeftToRight` itself compares with `unicode.ToLower` — a weaker fact). -/
+def StrFactsSound (o : StrOpts) (input : List Nat) (attempt : Nat → Option (Nat × Nat)) : Prop :=
+  MinLenSound false (decodeB input).length o.minLen attempt ∧
+  match o.mode with
+  | .leadingStringLtr => ∀ p, p ≤ (decodeB input).length → attempt p ≠ none → runeOcc false input o.leadingPrefix p
+  | .leadingStringOrdinalIgnoreCaseLtr => ∀ p, p ≤ (decodeB input).length → attempt p ≠ none → runeOcc true input o.leadingPrefix p
+  | .leadingStringsLtr => ∀ p, p ≤ (decodeB input).length → attempt p ≠ none → ∃ pre ∈ o.prefixes, runeOcc false input pre p
+  | .leadingStringsOrdinalIgnoreCaseLtr => ∀ p, p ≤ (decodeB input).length → attempt p ≠ none → ∃ pre ∈ o.prefixes, runeOcc true input pre p
+  | .leadingSetLtr => ∀ set rest, o.sets = set :: rest → (set.range.isSome = true → set.chars = []) ∧
+      ∀ p, p ≤ (decodeB input).length → attempt p ≠ none → memAt (setMemB set) (runesOf input) (p + set.distance.toNat) = true
+  | .fixedDistanceCharLtr => ∀ p, p ≤ (decodeB input).length → attempt p ≠ none → (runesOf input)[p + o.fixedDistance.toNat]? = some o.fixedChar
+  | .fixedDistanceStringLtr => ∀ p, p ≤ (decodeB input).length → attempt p ≠ none →
+      occursAt eqExact (runesOf o.fixedString) (runesOf input) (p + o.fixedDistance.toNat) = true
+  | .literalAfterLoopLtr => ∀ l, o.literalAfterLoop = some l →
+      ∀ p, p ≤ (decodeB input).length → attempt p ≠ none → ∃ k, p ≤ k ∧ litAtB l (runesOf input) k
+  | _ => True
+
+theorem clean_of_not_containsRune (s : List Nat) (h : containsRune s 0xFFFD = false) : Clean s := by
+  unfold containsRune indexRune at h
+  simp only [show ¬ (0xFFFD < 0x80) by decide, if_false, if_true] at h
+  have hn : firstSeg (· == 0xFFFD) (decodeB s) 0 = none := by
+    cases hf : firstSeg (· == 0xFFFD) (decodeB s) 0 with
+    | none => rfl
+    | some _ => rw [hf] at h; simp at h
+  intro seg hseg
+  have := firstSeg_none _ _ 0 hn seg hseg
+  simpa using this
+
+theorem all_ascii_of_not_any (prefixes : List (List Nat)) (h : prefixes.any (fun p => !isASCIIString p) = false) :
+    ∀ pre ∈ prefixes, isASCIIString pre = true := by
+  intro pre hpre
+  have := List.any_eq_false.mp h pre hpre
+  simpa using this
+
+theorem prefixes_sound (prefixes : List (List Nat)) (ic : Bool) (minLen : Nat) (f : Filter) (input : List Nat)
+    (attempt : Nat → Option (Nat × Nat))
+    (hinst : stringIndexPrefixesFilter prefixes ic minLen = some f)
+    (hclean : ∀ pre ∈ prefixes, Clean pre)
+    (hP : ∀ p, p ≤ (decodeB input).length → attempt p ≠ none → ∃ pre ∈ prefixes, runeOcc ic input pre p)
+    (hM : MinLenSound false (decodeB input).length minLen attempt) : StrFilterSound input attempt f := by
+  unfold stringIndexPrefixesFilter at hinst
+  split at hinst
+  · simp at hinst
+  · split at hinst
+    · simp at hinst
+    · rename_i hasc
+      have hok : ∀ pre ∈ prefixes, PrefixOK ic pre := by
+        intro pre hpre
+        cases ic with
+        | false => simpa [PrefixOK] using hclean pre hpre
+        | true =>
+          simp only [PrefixOK, if_true]
+          have : prefixes.any (fun p => !isASCIIString p) = false := by simpa using hasc
+          exact all_ascii_of_not_any prefixes this pre hpre
+      cases hc : compileASCIIStringSetPrefixFilter prefixes ic minLen with
+      | none =>
+        rw [hc] at hinst; simp only [Option.some.injEq] at hinst; subst hinst
+        exact prefixesFallback_sound prefixes ic minLen input attempt hok hP hM
+      | some af =>
+        rw [hc] at hinst; simp only [Option.some.injEq] at hinst; subst hinst
+        have hic : ic = false := by
+          cases ic with
+          | false => rfl
+          | true => simp [compileASCIIStringSetPrefixFilter] at hc
+        subst hic
+        obtain ⟨c1, c2, c3, c4⟩ := compile_spec prefixes minLen af hc
+        apply asciiSetFilter_sound af input attempt
+        · rw [c1]; exact c3
+        · rw [c1]; exact c4
+        · rw [c1]; exact hP
+        · rw [c2]; exact hM
+
+/-- **`stringFilter_dispatch_sound`** (lemma form): see `Props.C03.stringFilter_dispatch_sound` -/
+theorem dispatch_sound (code : CodeB) (o : StrOpts) (k : Kind) (f : Filter) (input : List Nat)
+    (attempt : Nat → Option (Nat × Nat))
+    (ho : code.opts = some o) (hinst : newStringPrefixFilter code = some (k, f))
+    (hF : StrFactsSound o input attempt) : StrFilterSound input attempt f := by
+  unfold newStringPrefixFilter at hinst
+  rw [ho] at hinst
+  simp only at hinst
+  split at hinst
+  · simp at hinst
+  · split at hinst
+    · simp at hinst
+    · split at hinst
+      · simp at hinst
+      · rename_i hre
+        have hre' : hasRuneError o = false := by simpa using hre
+        unfold hasRuneError at hre'
+        simp only [Bool.or_eq_false_iff] at hre'
+        obtain ⟨⟨⟨e1, e2⟩, e3⟩, e4⟩ := hre'
+        obtain ⟨hM, hfact⟩ := hF
+        cases hm : o.mode <;> simp only [hm] at hinst hfact <;> try (simp at hinst; done)
+        case leadingStringLtr =>
+          unfold stringIndexPrefixFilter at hinst
+          split at hinst
+          · simp at hinst
+          · rename_i hne
+            simp only [Bool.false_and, Bool.false_eq_true, if_false, Option.map_some, Option.some.injEq, Prod.mk.injEq] at hinst
+            obtain ⟨_, rfl⟩ := hinst
+            exact prefixFilter_sound _ false _ input attempt (by intro h; rw [h] at hne; simp at hne)
+              (by simpa [PrefixOK] using clean_of_not_containsRune _ e1) hfact hM
+        case leadingStringOrdinalIgnoreCaseLtr =>
+          unfold stringIndexPrefixFilter at hinst
+          split at hinst
+          · simp at hinst
+          · rename_i hne
+            split at hinst
+            · simp at hinst
+            · rename_i hasc
+              simp only [Option.map_some, Option.some.injEq, Prod.mk.injEq] at hinst
+              obtain ⟨_, rfl⟩ := hinst
+              exact prefixFilter_sound _ true _ input attempt (by intro h; rw [h] at hne; simp at hne)
+                (by simpa [PrefixOK] using hasc) hfact hM
+        case leadingStringsLtr =>
+          cases hs : stringIndexPrefixesFilter o.prefixes false o.minLen with
+          | none => rw [hs] at hinst; simp at hinst
+          | some g =>
+            rw [hs] at hinst
+            simp only [Option.map_some, Option.some.injEq, Prod.mk.injEq] at hinst
+            obtain ⟨_, rfl⟩ := hinst
+            refine prefixes_sound _ false _ g input attempt hs ?_ hfact hM
+            intro pre hpre
+            exact clean_of_not_containsRune pre (by simpa using List.any_eq_false.mp e4 pre hpre)
+        case leadingStringsOrdinalIgnoreCaseLtr =>
+          cases hs : stringIndexPrefixesFilter o.prefixes true o.minLen with
+          | none => rw [hs] at hinst; simp at hinst
+          | some g =>
+            rw [hs] at hinst
+            simp only [Option.map_some, Option.some.injEq, Prod.mk.injEq] at hinst
+            obtain ⟨_, rfl⟩ := hinst
+            refine prefixes_sound _ true _ g input attempt hs ?_ hfact hM
+            intro pre hpre
+            exact clean_of_not_containsRune pre (by simpa using List.any_eq_false.mp e4 pre hpre)
+        case leadingSetLtr =>
+          cases hsets : o.sets with
+          | nil => rw [hsets] at hinst; simp at hinst
+          | cons set rest =>
+            rw [hsets] at hinst
+            simp only at hinst
+            split at hinst
+            · simp at hinst
+            · obtain ⟨hwf, hmem⟩ := hfact set rest hsets
+              unfold stringFixedDistanceSetFilter at hinst
+              cases hsc : newASCIISetStringScanner set with
+              | none => rw [hsc] at hinst; simp at hinst
+              | some sc =>
+                rw [hsc] at hinst
+                simp only [Option.map_some, Option.some.injEq, Prod.mk.injEq] at hinst
+                obtain ⟨_, rfl⟩ := hinst
+                unfold newASCIISetStringScanner at hsc
+                split at hsc
+                · simp at hsc
+                · rename_i hneg
+                  simp only [Bool.or_eq_true, decide_eq_true_eq, not_or, Bool.not_eq_true] at hneg
+                  cases hrg : set.range with
+                  | some lh =>
+                    obtain ⟨lo, hi⟩ := lh
+                    rw [hrg] at hsc
+                    simp only at hsc
+                    split at hsc
+                    · simp at hsc
+                    · rename_i hhi
+                      simp only [Option.some.injEq] at hsc; subst hsc
+                      have hch := hwf (by rw [hrg]; rfl)
+                      apply setFilter_sound _ (fun b => decide (lo ≤ b) && decide (b ≤ hi)) _ input attempt
+                      · intro c hc; simp at hc; omega
+                      · intro u; simp [Scanner.index]
+                      · intro p hp hne'
+                        have := hmem p hp hne'
+                        have hfun : setMemB set = fun b => decide (lo ≤ b) && decide (b ≤ hi) := by
+                          funext b; simp [setMemB, hch, hrg, hneg.1]
+                        rw [hfun] at this; exact this
+                      · exact hM
+                  | none =>
+                    rw [hrg] at hsc
+                    simp only at hsc
+                    split at hsc
+                    · simp at hsc
+                    · rename_i hce
+                      split at hsc
+                      · simp at hsc
+                      · rename_i hasc
+                        simp only [Option.some.injEq] at hsc; subst hsc
+                        apply setFilter_sound _ (fun b => set.chars.contains b) _ input attempt
+                        · intro c hc
+                          have hasc' : ∀ x, x ∈ set.chars → x ≤ 127 := by simpa using hasc
+                          have := hasc' c (by simpa using hc)
+                          omega
+                        · intro u; simp [Scanner.index]
+                        · intro p hp hne'
+                          have := hmem p hp hne'
+                          have hfun : setMemB set = fun b => set.chars.contains b := by
+                            funext b; simp [setMemB, hce, hneg.1]
+                          rw [hfun] at this; exact this
+                        · exact hM
+        case fixedDistanceCharLtr =>
+          unfold stringFixedDistanceCharFilter at hinst
+          split at hinst
+          · simp at hinst
+          · simp only [Option.map_some, Option.some.injEq, Prod.mk.injEq] at hinst
+            obtain ⟨_, rfl⟩ := hinst
+            exact fixedCharFilter_sound _ _ _ input attempt hfact hM
+        case fixedDistanceStringLtr =>
+          unfold stringFixedDistanceStringFilter at hinst
+          split at hinst
+          · simp at hinst
+          · rename_i hg
+            simp only [Option.map_some, Option.some.injEq, Prod.mk.injEq] at hinst
+            obtain ⟨_, rfl⟩ := hinst
+            simp only [Bool.or_eq_true, not_or, Bool.not_eq_true] at hg
+            exact fixedStringFilter_sound _ _ _ input attempt (by intro h; rw [h] at hg; simp at hg)
+              (clean_of_not_containsRune _ e2) hfact hM
+        case literalAfterLoopLtr =>
+          unfold stringLiteralAfterLoopFilter at hinst
+          cases hl : o.literalAfterLoop with
+          | none => rw [hl] at hinst; simp at hinst
+          | some l =>
+            rw [hl] at hinst e3
+            simp only at hinst e3
+            split at hinst
+            · simp at hinst
+            · split at hinst
+              · simp at hinst
+              · rename_i hci
+                simp only [Option.map_some, Option.some.injEq, Prod.mk.injEq] at hinst
+                obtain ⟨_, rfl⟩ := hinst
+                apply literalAfterLoopFilter_sound l _ input attempt _ (hfact l hl) hM
+                intro hse
+                cases hic : l.strIgnoreCase with
+                | false => simpa [PrefixOK] using clean_of_not_containsRune _ e3
+                | true =>
+                  simp only [PrefixOK, if_true]
+                  simp only [hic, Bool.true_and, Bool.or_eq_true, not_or, Bool.not_eq_true, Bool.not_eq_false'] at hci
+                  simpa using hci.2
+
+/-- where no filter is sound, none is installed: right-to-left programs, `\G`, a U+FFFD in one of the literal
+    strings (an invalid input byte decodes to U+FFFD but does not contain its three bytes) -/
+theorem dispatch_none (code : CodeB)
+    (h : code.rightToLeft = true ∨ code.usesStartAnchor = true ∨ ∃ o, code.opts = some o ∧ hasRuneError o = true) :
+    newStringPrefixFilter code = none := by
+  unfold newStringPrefixFilter
+  cases ho : code.opts with
+  | none => rfl
+  | some o =>
+    simp only
+    rcases h with h | h | ⟨o', ho', h⟩
+    · simp [h]
+    · simp [h]
+    · rw [ho] at ho'; simp only [Option.some.injEq] at ho'; subst ho'
+      simp [h]
+
+/-! ## from the byte filter to the `FilterSound` hypothesis of `Model/Api.lean` -/
+
+theorem widths_decode (input : List Nat) : widths (decode input) = (decodeB input).map (·.2) := by
+  simp [widths, decode]
+
+/-- `decodeStringWithStart` / `getRunesAndStart` map the byte offset of rune `k` back to `k` -/
+theorem runeStart_byteOff (input : List Nat) (k : Nat) (hk : k ≤ (decodeB input).length) :
+    runeStart (decode input) ((byteOff input k : Nat) : Int) = (k : Int) := by
+  have := Lemmas.Utf8.runeStartLoop_at (decode input)
+    (by
+      intro sg hsg
+      have : sg.2 ∈ widths (decode input) := List.mem_map.mpr ⟨sg, hsg, rfl⟩
+      rw [widths_decode] at this
+      exact width_pos input _ this)
+    0 0 k (-1) (by simp [decode]; exact hk)
+  rw [widths_decode] at this
+  simp only [Nat.zero_add] at this
+  exact this
+
+theorem installed_has_opts (code : CodeB) (kf : Kind × Filter) (h : newStringPrefixFilter code = some kf) :
+    ∃ o, code.opts = some o := by
+  unfold newStringPrefixFilter at h
+  cases ho : code.opts with
+  | none => rw [ho] at h; simp at h
+  | some o => exact ⟨o, rfl⟩
+
+/-- a sound byte filter (or none) gives the hypothesis `FilterSound` of the entry-point theorems -/
+theorem runeFilter_sound (filter : Option Filter) (input : List Nat) (attempt : Nat → Option (Nat × Nat))
+    (h : ∀ f, filter = some f → StrFilterSound input attempt f) :
+    Api.FilterSound attempt (decodeB input).length (runeFilter filter input) := by
+  have hrf : ∀ c, runeFilter filter input 0 = some c →
+      ∃ kc, kc ≤ (decodeB input).length ∧ c = kc ∧ ∀ p, p < kc → attempt p = none := by
+    intro c hc
+    unfold runeFilter findStringMatchStart at hc
+    have e1 : ¬ ((-1 : Int) > (input.length : Int)) := by omega
+    have e2 : ¬ ((-1 : Int) ≥ 0 ∧ (!isStringRuneBoundary input (-1 : Int).toNat) = true) := by omega
+    simp only [e1, e2, if_false, show ((-1 : Int) < 0) by omega, if_true, Bool.false_eq_true] at hc
+    unfold findStringPrefixCandidate at hc
+    cases hf : filter with
+    | none =>
+      rw [hf] at hc
+      simp only [if_true] at hc
+      have := runeStart_byteOff input 0 (Nat.zero_le _)
+      rw [byteOff_zero] at this
+      rw [this] at hc
+      simp at hc
+      exact ⟨0, Nat.zero_le _, by omega, fun p hp => by omega⟩
+    | some f =>
+      rw [hf] at hc
+      simp only [Bool.false_eq_true, if_false] at hc
+      have hpost := h f hf 0 ⟨0, Nat.zero_le _, byteOff_zero input⟩
+      cases hok : (f input 0).2 with
+      | false => simp [hok] at hc
+      | true =>
+        simp only [hok, Bool.not_true, Bool.false_eq_true, if_false] at hc
+        obtain ⟨⟨kc, hkc, hoff⟩, _, hskip⟩ := hpost.2 hok
+        split at hc
+        · simp only [if_true] at hc
+          have := runeStart_byteOff input 0 (Nat.zero_le _)
+          rw [byteOff_zero] at this
+          rw [this] at hc
+          simp at hc
+          exact ⟨0, Nat.zero_le _, by omega, fun p hp => by omega⟩
+        · simp only [if_true] at hc
+          rw [← hoff, runeStart_byteOff input kc hkc] at hc
+          have hc' : c = kc := by
+            have : ¬ ((kc : Int) < 0) := by omega
+            simp only [this, if_false, Option.some.injEq] at hc
+            omega
+          refine ⟨kc, hkc, hc', ?_⟩
+          intro p hp
+          apply hskip p (by omega) (Nat.zero_le _)
+          rw [← hoff]; exact byteOff_lt input p kc hp hkc
+  constructor
+  · intro hnone p hp
+    unfold runeFilter findStringMatchStart at hnone
+    have e1 : ¬ ((-1 : Int) > (input.length : Int)) := by omega
+    have e2 : ¬ ((-1 : Int) ≥ 0 ∧ (!isStringRuneBoundary input (-1 : Int).toNat) = true) := by omega
+    simp only [e1, e2, if_false, show ((-1 : Int) < 0) by omega, if_true, Bool.false_eq_true] at hnone
+    unfold findStringPrefixCandidate at hnone
+    cases hf : filter with
+    | none => rw [hf] at hnone; simp at hnone
+    | some f =>
+      rw [hf] at hnone
+      simp only [Bool.false_eq_true, if_false] at hnone
+      have hpost := h f hf 0 ⟨0, Nat.zero_le _, byteOff_zero input⟩
+      cases hok : (f input 0).2 with
+      | false => exact hpost.1 hok p hp (Nat.zero_le _)
+      | true =>
+        simp only [hok, Bool.not_true, Bool.false_eq_true, if_false] at hnone
+        split at hnone <;> simp at hnone
+  · intro c hc p hpc hp
+    obtain ⟨kc, _, rfl, hsk⟩ := hrf c hc
+    exact hsk p hpc
 
 end RegexVerif.Lemmas.StringFilter
